@@ -1,5 +1,6 @@
 import GqlVerif.Props.C01
 import GqlVerif.Proofs.C01EndToEnd
+import GqlVerif.Proofs.C01AbstractI
 open GqlVerif.C01
 #print axioms accepts_mono
 #print axioms conforming_int_accepted
@@ -36,3 +37,16 @@ open GqlVerif.C01
 #print axioms GqlVerif.C01.E2E.tree_accepts
 #print axioms GqlVerif.C01.E2E.tree_lossless
 #print axioms GqlVerif.C01.E2E.tree_roundtrip
+-- abstract positions (interfaces / unions with inline fragments) and named fragments (Proofs/C01Abstract*.lean)
+#print axioms GqlVerif.C01.E2E.variant_items_shape
+#print axioms GqlVerif.C01.E2E.variant_accepts
+#print axioms GqlVerif.C01.E2E.variant_lossless
+#print axioms GqlVerif.C01.E2E.variant_roundtrip
+#print axioms GqlVerif.C01.E2E.fragment_items_shape
+#print axioms GqlVerif.C01.E2E.fragment_struct_shape
+#print axioms GqlVerif.C01.E2E.fragment_accepts
+#print axioms GqlVerif.C01.E2E.fragment_lossless
+#print axioms GqlVerif.C01.E2E.fragment_roundtrip
+#print axioms GqlVerif.C01.E2E.fragment_overlap_loses_key
+#print axioms GqlVerif.C01.E2E.variantOp_of_treeOp
+#print axioms GqlVerif.C01.E2E.fragmentOp_of_variantOp
